@@ -18,7 +18,8 @@ def U(name, **kw):
     UNITS.append(kw)
 
 
-OOM = ["--malloc-may-fail", "--malloc-fail-null"]
+OOM = ["--malloc-may-fail", "--malloc-fail-null"]   # (the default of CBMC 6; spelled out)
+NOOOM = ["--no-malloc-may-fail"]
 
 
 def unw(n):
@@ -92,9 +93,9 @@ for _n, _m in ((0, 1), (1, 1), (0, 2), (1, 2), (2, 1), (2, 2)):
 U("setmulti_args", entry="h_setmulti_args", func="cfg_opt_setmulti", harness="harness/store2.c", defs={"quick": ["-DNV=2"]}, cbmc=unw(6),
   label="proof (loop-free paths: argument validation)", props=["C09", "C10", "C02"], cost=5, **CF)
 per_count("addlist", counts_quick=(0, 1), counts_thorough=(0, 1, 2), entry="h_addlist", func="cfg_addlist, cfg_addlist_internal", harness="harness/store2.c",
-          cbmc=unw(6), label="2 appended values; " + FLAGTXT, props=["C09", "C10", "C02"], cost=40, **CFG)
+          cbmc=unw(6) + NOOOM, label="no allocation failure; 2 appended values; " + FLAGTXT, props=["C09", "C10", "C02"], cost=40, **CFG)
 per_count("setlist", counts_quick=(0, 1), counts_thorough=(0, 1, 2), entry="h_setlist", func="cfg_setlist, cfg_addlist_internal", harness="harness/store2.c",
-          cbmc=unw(6), label="2 new values; " + FLAGTXT, props=["C09", "C10", "C02"], cost=40, **CFG)
+          cbmc=unw(6) + NOOOM, label="no allocation failure; 2 new values; " + FLAGTXT, props=["C09", "C10", "C02"], cost=40, **CFG)
 per_count("setnint_byname", counts_quick=(0, 1), counts_thorough=(0, 1, 2), entry="h_setnint_byname", func="cfg_setnint", harness="harness/store2.c",
           cbmc=unw(6) + OOM, label=FLAGTXT, props=["C14", "C10", "C09", "C02"], cost=20, **CFG)
 U("setnstr_byname", entry="h_setnstr_byname", func="cfg_setnstr", harness="harness/store2.c", defs={"quick": ["-DNV=2"]}, cbmc=unw(6) + OOM,
